@@ -68,7 +68,10 @@ def run(ctx):
             if outcome == "Error":
                 raise MachineryError("Apalache: the inductive invariant of MC_SocketInd fails (%s)" % name)
         ctx.extra["apalache_inductive_invariant"] = res
-    pool = st.frame_pool(rng)
+    bigpool = st.frame_pool(rng)
+    # the wrapper traces are replayed byte by byte on the machine (spec/UbxSocket.tla): frames of tens of kilobytes are kept for the reader runs
+    pool = [x for x in bigpool if len(x[0]) <= 2000]
+    bigpool = bigpool + [x for x in st.special_frames(rng) if len(x[0]) > 7000]
     from ..common import frame
 
     shorts = [b"$G\n\xb5\x62\n\x00", frame(6, 0, b""), b"$GA\r\n$GB\n", st.rtcm_frame(b"\x3e"), b"\x00\xb5\x62\x05\x01\x02\x00\x06\x01\x0f\x38"[:10]]
@@ -88,7 +91,7 @@ def run(ctx):
         for S in shorts:
             for cuts in all_cuts(len(S)):
                 for bs in (1, 2, 3, 5, 4096):
-                    for end in ("close", "timeout"):
+                    for end in ("close", "timeout", "reset"):
                         for calls in scripts(S):
                             if not big and rng.random() < 0.6:
                                 continue
@@ -97,7 +100,7 @@ def run(ctx):
             S = st.garbage_stream(rng, pool, rng.randrange(2, 12))
             cuts = sorted(rng.sample(range(1, max(2, len(S))), min(len(S) - 1, rng.randrange(0, 12)))) if len(S) > 2 else []
             calls = [rng.choice((["read", rng.randrange(0, 9)], ["line", 0], ["read", rng.randrange(1, 300)], ["write", rng.randrange(0, 40)])) for _ in range(rng.randrange(3, 40))]
-            yield ("wrapper", {"S": S.hex(), "cuts": cuts, "bufsize": rng.choice((1, 2, 3, 5, 64, 4096)), "end": rng.choice(("close", "timeout")), "calls": calls})
+            yield ("wrapper", {"S": S.hex(), "cuts": cuts, "bufsize": rng.choice((1, 2, 3, 5, 64, 4096)), "end": rng.choice(("close", "timeout", "reset")), "calls": calls})
 
     def gen_reader():
         for S in shorts:
@@ -105,15 +108,22 @@ def run(ctx):
                 for bs in (1, 2, 3, 5, 4096):
                     if not big and rng.random() < 0.5:
                         continue
-                    yield ("sockreader", {"S": S.hex(), "cuts": cuts, "bufsize": bs, "end": rng.choice(("close", "timeout"))})
+                    yield ("sockreader", {"S": S.hex(), "cuts": cuts, "bufsize": bs, "end": rng.choice(("close", "timeout", "reset"))})
+        # every very long frame / text line (tens of kilobytes, lines without LF for thousands of bytes) between two ordinary frames
+        small = [x for x in pool if len(x[0]) < 60][:8]
+        for k, x in enumerate(y for y in st.special_frames(rng) if len(y[0]) > 1000):
+            S = small[k % len(small)][0] + x[0] + small[(k + 3) % len(small)][0]
+            cuts = sorted(set(range(1, len(S), 1460)) | {len(small[k % len(small)][0]) + 2})
+            for bs in (64, 4096) if k % 2 else (4096,):
+                yield ("sockreader", {"S": S.hex(), "cuts": cuts, "bufsize": bs, "end": ("close", "timeout", "reset")[k % 3]})
         for k in range(200 if not big else 2000):
             if k % 2:
-                S, _ = st.clean_stream(rng, pool, rng.randrange(3, 40), noise_p=0.3)
+                S, _ = st.clean_stream(rng, bigpool if k % 8 == 1 else pool, rng.randrange(3, 40), noise_p=0.3)
             else:
                 S = st.garbage_stream(rng, pool, rng.randrange(3, 30))
             ncut = rng.choice((0, 1, 3, 10, 50, len(S) // 2))
             cuts = sorted(rng.sample(range(1, max(2, len(S))), min(max(len(S) - 1, 0), ncut))) if len(S) > 2 else []
-            yield ("sockreader", {"S": S.hex(), "cuts": cuts, "bufsize": rng.choice((1, 2, 3, 5, 64, 4096)), "end": rng.choice(("close", "timeout")),
+            yield ("sockreader", {"S": S.hex(), "cuts": cuts, "bufsize": rng.choice((1, 2, 3, 5, 64, 4096)), "end": rng.choice(("close", "timeout", "reset")),
                                   "msgmode": rng.choice((0, 0, 1, 3)), "pbf": rng.choice((0, 1)), "validate": rng.choice((1, 1, 0)),
                                   "filter": rng.choice((7, 7, 7, 1, 2, 4, 3, 5, 6)), "parsing": rng.choice((1, 1, 1, 0)), "quit": rng.choice((0, 1)),
                                   "labelmsm": rng.choice((1, 2))})
